@@ -11,6 +11,12 @@ def search(ctx):
 def run(ctx):
     ctx.prove()
     st = ctx.correspond("h_quorum", "Quorum", nontrivial=r"^(sqrow|wqrow|cr|scaled|sq|wq) ")
+    # "the certificate validator, message validator and tally agree on the same threshold": the threshold predicate is
+    # shared code, but each caller decides when to CALL it — the message validator skips it on a cache hit. The
+    # validator's own stream (both paths, warm caches) is replayed here: a justification let through below 2/3 is a
+    # failing input for this property as well.
+    from checks import gpbft_common as g
+    g.validation_gate(ctx)
     exhaustive = ctx.tier == "thorough" and st.get("hist", {}).get("sqrow", 0) == 65536
     return ctx.finish(
         rule="h_quorum: every line is one evaluation of the real Go predicate (sq/wq: one (part,whole) pair; "
